@@ -195,6 +195,31 @@ inline bool operator>=(const TC32 &a, const TC32 &b) { return a.v >= b.v; }
 inline auto operator<=>(const TC32 &a, const TC32 &b) { return a.v <=> b.v; }
 #endif
 
+/// Large trivially copyable element (300 bytes, every word carries the value): byte-wise fast paths that go through a
+/// fixed-size scratch buffer, or count in a narrow type, must cope with it.
+struct TC300 {
+  int32_t w[75];
+  TC300() { fill(0); }
+  TC300(int x) { fill(x); }
+  void fill(int x) {
+    for (int i = 0; i < 75; ++i) w[i] = x + i * 0x01010101;
+  }
+  bool ok() const {
+    for (int i = 1; i < 75; ++i)
+      if (w[i] != w[0] + i * 0x01010101) return false;
+    return true;
+  }
+};
+inline bool operator==(const TC300 &a, const TC300 &b) { return a.w[0] == b.w[0]; }
+inline bool operator!=(const TC300 &a, const TC300 &b) { return a.w[0] != b.w[0]; }
+inline bool operator<(const TC300 &a, const TC300 &b) { return a.w[0] < b.w[0]; }
+inline bool operator>(const TC300 &a, const TC300 &b) { return a.w[0] > b.w[0]; }
+inline bool operator<=(const TC300 &a, const TC300 &b) { return a.w[0] <= b.w[0]; }
+inline bool operator>=(const TC300 &a, const TC300 &b) { return a.w[0] >= b.w[0]; }
+#if __cplusplus >= 202002L
+inline auto operator<=>(const TC300 &a, const TC300 &b) { return a.w[0] <=> b.w[0]; }
+#endif
+
 /// Declared trivially relocatable, not trivially copyable; identity is the id stored in the object.
 class TR {
  public:
@@ -418,6 +443,22 @@ struct El<TC32> {
   }
   static long ident(const TC32 &e) { return e.v; }
   static const char *name() { return "TC32"; }
+  static const char *cat() { return "TC"; }
+};
+template <>
+struct El<TC300> {
+  static const bool tracked = false;
+  static TC300 make(int v) { return TC300(v); }
+  static int val(const TC300 &e) { return e.w[0]; }
+  static bool sane(const TC300 &e, const char **why) {
+    if (!e.ok()) {
+      *why = "TC300 element torn (partially copied or overlapped)";
+      return false;
+    }
+    return true;
+  }
+  static long ident(const TC300 &e) { return e.w[0]; }
+  static const char *name() { return "TC300"; }
   static const char *cat() { return "TC"; }
 };
 template <>
